@@ -5,4 +5,5 @@ package main
 func init() {
 	targets["simulation.go"] = append(targets["simulation.go"], "SimulationBFTree.CreateTree+cond")
 	targets["tree.go"] = append(targets["tree.go"], "Roster.Search+cond")
+	targets["app/config.go"] = append(targets["app/config.go"], "ambiguousKeys+cond")
 }
